@@ -760,7 +760,7 @@ func mutateNdb(r *hx.Rand, base []byte) ([]byte, string) {
 		switch r.Intn(12) {
 		case 0:
 			name = "npages"
-			p32(12, []uint32{0, 1, 2, 16, 0x100000, 0xffffffff, 0x00100001}[r.Intn(7)])
+			p32(12, []uint32{0, 1, 2, 16, 0x100000, 0xffffffff, 0x00100001, 0x000fffff, 0x7fffffff, 0x00080000}[r.Intn(10)])
 		case 1:
 			name = "nextidx"
 			p32(16, []uint32{0, 1, 2, uint32(len(used)), uint32(len(used) + 2), 0x04000001, 0xffffffff}[r.Intn(7)])
